@@ -31,6 +31,10 @@ shutil.copy(patch, os.path.join(dst, "patch.diff"))
 rd = patch.replace(".diff", "_README.md")
 if os.path.exists(rd):
     shutil.copy(rd, os.path.join(dst, "README.md"))
+mp = os.path.join(dst, "meta.json")
+if os.path.exists(mp):
+    old = json.load(open(mp))
+    merged = dict(old.get("checks", {})); merged.update(meta["checks"]); meta["checks"] = merged
 meta["all_silent"] = all(c["silent"] for c in meta["checks"].values())
 json.dump(meta, open(os.path.join(dst, "meta.json"), "w"), indent=1)
 print(name, "suite_ok", meta.get("suite_ok_lines"), "ALL SILENT" if meta["all_silent"] else "ALARMS: " + ", ".join(p for p, c in meta["checks"].items() if not c["silent"]))
